@@ -1254,8 +1254,11 @@ func TestVerifWatcher(t *testing.T) {
 		}(i)
 	}
 	wg.Wait()
-	out.w.Flush()
-	verifWFetchHeightRows(out)
+	out.emitNow(map[string]interface{}{"k": "progress", "phase": "histories-done", "n": n})
+	if os.Getenv("VERIF_W_NFH") != "0" {
+		verifWFetchHeightRows(out)
+	}
+	out.emitNow(map[string]interface{}{"k": "progress", "phase": "fetch-height-done"})
 	// free-running scenarios: the real Watcher.Run against the simulated node
 	nrun := 36
 	if verifWThorough() {
@@ -1264,7 +1267,11 @@ func TestVerifWatcher(t *testing.T) {
 	if s := os.Getenv("VERIF_W_NRUN"); s != "" {
 		nrun, _ = strconv.Atoi(s)
 	}
+	only, skip := verifWIdSet("VERIF_W_ONLYRUN"), verifWIdSet("VERIF_W_SKIPRUN")
 	for i := 0; i < nrun; i++ {
+		if (only != nil && !only[i]) || skip[i] {
+			continue
+		}
 		wg.Add(1)
 		sem <- struct{}{}
 		go func(i int) {
@@ -1277,10 +1284,11 @@ func TestVerifWatcher(t *testing.T) {
 						row = map[string]interface{}{"k": "run", "id": i, "harness_panic": fmt.Sprint(p)}
 					}
 				}()
-				row = verifWRunScenario(i, seed)
+				row = verifWRunScenario(i, seed, out)
 			}()
 			out.emit(row)
 		}(i)
 	}
 	wg.Wait()
+	out.emitNow(map[string]interface{}{"k": "progress", "phase": "runs-done"})
 }
